@@ -317,3 +317,93 @@ def float32_double(b: int, scale: bool, clip: bool, f: int) -> bool:
       ok = math.isclose(back[0].value, value, rel_tol=2e-6, abs_tol=2e-6 * max(abs(lo), abs(hi)))
   reach('float32_double')
   return finish(ok, (b, scale, clip, f))
+
+
+TINY = [(1e-10, 1e-8), (0.0, 1e-8), (1000.0, 1000.005), (1e-12, 2e-12), (-1e-9, 1e-9)]
+
+
+def tiny_ranges(b: int, point: int) -> bool:
+  """
+  pre: 0 <= b <= 4 and 0 <= point <= 4
+  post: _
+  """
+  b, point = conc(b, 0, 4), conc(point, 0, 4)
+  with NoTracing():
+    lo, hi = TINY[b]               # valid ranges that are narrow in absolute terms (an absolute tolerance would call them empty)
+    pc = vz.ParameterConfig.factory('p', bounds=(lo, hi), scale_type=vz.ScaleType.LINEAR)
+    conv = core.DefaultModelInputConverter(pc, scale=True, float_dtype=np.float64)
+    frac = [0.0, 1.0, 0.5, 0.125, 0.875][point]
+    value = lo + (hi - lo) * frac
+    arr = conv.convert([vz.TrialSuggestion({'p': value})])
+    ok = arr.shape == (1, 1) and abs(float(arr[0, 0]) - frac) < 1e-6          # low -> 0, high -> 1, orientation kept
+    back = conv.to_parameter_values(arr)
+    ok = ok and back[0] is not None and lo <= back[0].value <= hi
+    ok = ok and abs(back[0].value - value) <= 1e-6 * (hi - lo)
+  reach('tiny_ranges')
+  return finish(ok, (b, point))
+
+
+def jnp_roundtrip(layout: int, mdi: int, p1: int, p2: int, p3: int, p4: int) -> bool:
+  """
+  pre: 0 <= layout <= 5 and 0 <= mdi <= 2 and 0 <= p1 <= 2 and 0 <= p2 <= 2 and 0 <= p3 <= 2 and 0 <= p4 <= 2
+  post: _
+  """
+  layout, mdi = conc(layout, 0, 5), conc(mdi, 0, 2)
+  p1, p2, p3, p4 = conc(p1, 0, 2), conc(p2, 0, 2), conc(p3, 0, 2), conc(p4, 0, 2)
+  with NoTracing():
+    from vizier.pyvizier.converters import jnp_converters as jc
+    # the converter the GP designers use: continuous and categorical blocks; names decide the column order
+    names = [('a', 'b', 'c', 'd'), ('a', 'c', 'b', 'd'), ('b', 'a', 'd', 'c'), ('d', 'c', 'a', 'b'), ('c', 'a', 'b', 'd'),
+             ('d', 'b', 'c', 'a')][layout]
+    problem = vz.ProblemStatement()
+    root = problem.search_space.root
+    root.add_categorical_param(names[0], ['x', 'y', 'z'])
+    root.add_float_param(names[1], -1.0, 3.0)
+    root.add_int_param(names[2], -2, 2)
+    root.add_discrete_param(names[3], [1.0, 2.0, 4.0])
+    problem.metric_information.append(vz.MetricInformation('m', goal=vz.ObjectiveMetricGoal.MAXIMIZE))
+    conv = jc.TrialToContinuousAndCategoricalConverter.from_study_config(problem, max_discrete_indices=[0, 10, 10 ** 9][mdi])
+    params = {names[0]: ['x', 'y', 'z'][p1], names[1]: [-1.0, 0.5, 3.0][p2], names[2]: [-2, 0, 2][p3],
+              names[3]: [1.0, 2.0, 4.0][p4]}
+    other = {names[0]: 'z', names[1]: 2.0, names[2]: 1, names[3]: 4.0}
+    feats = conv.to_features([vz.Trial(parameters=params), vz.Trial(parameters=other)])
+    cont = np.asarray(feats.continuous)
+    ok = bool(np.all(np.isfinite(cont))) and bool(np.all(cont >= -1e-6) and np.all(cont <= 1 + 1e-6))   # scaled block
+    back = conv.to_parameters(feats)
+    ok = ok and len(back) == 2
+    for want, got in zip((params, other), back):
+      g = got.as_dict()
+      ok = ok and sorted(g) == sorted(want)
+      if ok:
+        for k, v in want.items():
+          if isinstance(v, float) and k == names[1]:
+            ok = ok and abs(float(g[k]) - v) < 1e-5
+          else:
+            ok = ok and g[k] == v
+  reach('jnp_roundtrip')
+  return finish(ok, (layout, mdi, p1, p2, p3, p4))
+
+
+_ROWS = [[0.0, 0.0, 0.0, 0.0], [0.25, 0.25, 0.25, 0.25], [0.1, 0.2, 0.3, 0.9], [-1.0, -2.0, -3.0, -0.5], [0.0, 0.0, 0.0, 1.0],
+         [0.3, 0.1, 0.2, 0.3], [1e30, -1e30, 0.0, 1e30], [0.0, 1.0, 0.0, 0.0]]
+
+
+def onehot_decode_any(row: int, n: int, dt: bool) -> bool:
+  """
+  pre: 0 <= row <= 7 and 1 <= n <= 3
+  post: _
+  """
+  row, n, dt = conc(row, 0, 7), conc(n, 1, 3), cbool(dt)
+  with NoTracing():
+    # whatever an optimiser writes into a one-hot block (padded with the out-of-vocabulary column): a feasible category
+    cats = ['a', 'b', 'c'][:n]
+    pc = vz.ParameterConfig.factory('p', feasible_values=cats)
+    conv = core.DefaultModelInputConverter(pc, scale=True, onehot_embed=True, pad_oovs=True,
+                                           float_dtype=np.float32 if dt else np.float64)
+    width = conv.output_spec.num_dimensions
+    arr = np.asarray([(_ROWS[row][:n] + [_ROWS[row][3]])[:width]], dtype=np.float32 if dt else np.float64)
+    ok = width == n + 1
+    back = conv.to_parameter_values(arr)
+    ok = ok and len(back) == 1 and back[0] is not None and back[0].value in cats
+  reach('onehot_any')
+  return finish(ok, (row, n, dt))
